@@ -4,6 +4,7 @@ strings / byte strings.  Spec functions (defined by their unfoldings, supplied a
    val58("") = 0,    val58(s ++ [c]) = 58 * val58(s) + IDX(c)
    allin("") = true, allin(s ++ [c]) = allin(s) and IN(c)
 """
+from . import summaries as _SUM_ALWAYS      # noqa: F401,E402  (summaries installed independent of import order)
 import z3
 from pyvc import logic as L
 from pyvc import engine as E
